@@ -6,7 +6,9 @@ import (
 	"errors"
 	"fmt"
 	"strings"
+	"syscall"
 	"testing/synctest"
+	"time"
 
 	"github.com/whawty/auth/zzverif/simnet"
 	"github.com/whawty/auth/zzverif/simrt"
@@ -25,6 +27,8 @@ type connPlan struct {
 	fin     bool // client closed and EOF delivered
 	reset   bool
 	gone    bool
+	cbDelay time.Duration // the callback takes this long (a slow password store)
+	cbStart time.Time
 	calls   [][4]string
 	dialled bool
 }
@@ -54,6 +58,10 @@ func propC05(r *Run) {
 			}
 			p := plans[cur]
 			p.calls = append(p.calls, [4]string{login, password, service, realm})
+			if p.cbDelay > 0 {
+				p.cbStart = time.Now()
+				time.Sleep(p.cbDelay) // fake clock: the handler is busy for that long
+			}
 			return p.cbOK, p.cbMsg, p.cbErr
 		}
 		srv, err := NewServer("/run/whawty/auth.sock", cb)
@@ -93,6 +101,7 @@ func propC05(r *Run) {
 			if r.Choose("cb-err", 4) == 0 {
 				p.cbErr = errors.New(seededBytes(3, msgLens[r.Choose("cb-err-len", len(msgLens))]))
 			}
+			p.cbDelay = []time.Duration{0, 0, 0, 2 * time.Second, 6 * time.Second, 70 * time.Second}[r.Choose("cb-delay", 6)]
 			plans[i] = p
 			r.Logf("conn%d plan: %s; callback ok=%v msg=%dB err=%v", i, p.desc, p.cbOK, len(p.cbMsg), p.cbErr != nil)
 		}
@@ -123,6 +132,9 @@ func propC05(r *Run) {
 			ended := p.fin
 			if p.reset {
 				return // the transport is gone; nothing is owed beyond the callback rules above
+			}
+			if len(p.calls) == 1 && p.cbDelay > 0 && time.Since(p.cbStart) < p.cbDelay {
+				return // the callback is still working on this connection's request
 			}
 			if (complete || ended) && !closed {
 				r.Fail("reply/not-closed", "conn%d: stream complete=%v ended=%v but the server has not closed the connection (output %d bytes)", i, complete, ended, len(out))
@@ -176,6 +188,7 @@ func propC05(r *Run) {
 		}
 
 		steps := 0
+		acceptFaults := 0
 		for steps < 400 {
 			type act struct {
 				kind string
@@ -204,6 +217,12 @@ func propC05(r *Run) {
 				_ = p
 				acts = append(acts, act{"release", i})
 			}
+			if steps > 0 {
+				acts = append(acts, act{"clock", 0})
+			}
+			if steps > 0 && acceptFaults < 2 {
+				acts = append(acts, act{"accept-error", 0})
+			}
 			if len(acts) == 0 {
 				break
 			}
@@ -213,6 +232,34 @@ func propC05(r *Run) {
 				break
 			}
 			a := acts[r.Choose("action", len(acts))]
+			if a.kind == "accept-error" {
+				if r.Choose("really-accept-error", 5) == 0 {
+					e := []syscall.Errno{syscall.EMFILE, syscall.ENFILE}[r.Choose("accept-errno", 2)] // what accept(2) really hands to Go's net package
+					nw.InjectAcceptError("/run/whawty/auth.sock", e)
+					acceptFaults++
+					r.Count("fault:accept-" + e.Error())
+					r.Logf("step %d: accept() fails once with %v", steps, e)
+					synctest.Wait()
+				}
+				continue
+			}
+			if a.kind == "clock" {
+				d := []time.Duration{time.Second, 3 * time.Second, 5 * time.Second, 8 * time.Second}[r.Choose("clock-step", 4)]
+				r.Logf("step %d: clock +%v", steps, d)
+				time.Sleep(d)
+				synctest.Wait()
+				for _, q := range plans {
+					if q.dialled {
+						q.pair.Deliver(false, 0)
+						q.pair.DeliverFin(false)
+					}
+				}
+				steps++
+				for i := range plans {
+					check(i, false)
+				}
+				continue
+			}
 			if a.kind == "release" {
 				rs := sched.Runnable()
 				g := rs[a.conn]
@@ -302,6 +349,23 @@ func propC05(r *Run) {
 				cur = -1
 			}
 		}
+		if acceptFaults > 0 {
+			// the server keeps accepting after a transient accept() failure: one more client
+			probe := &connPlan{stream: RefEncodeRequest([4]string{"probe-user", "probe-pass", "", ""}), desc: "probe after accept error", cbOK: true, cbMsg: "fine"}
+			plans = append(plans, probe)
+			if pair, err := nw.DialPair("/run/whawty/auth.sock"); err == nil {
+				probe.pair, probe.dialled = pair, true
+				cur = len(plans) - 1
+				pair.C.Write(probe.stream) //nolint
+				pair.Deliver(true, 0)
+				probe.sent = len(probe.stream)
+				synctest.Wait()
+				cur = -1
+			} else {
+				r.Fail("server/stops-accepting", "after a transient accept() error the socket refuses connections: %v", err)
+			}
+		}
+		time.Sleep(2 * time.Minute) // slow callbacks finish
 		synctest.Wait()
 		for guard := 0; guard < 200; guard++ {
 			rs := sched.Runnable()
